@@ -79,6 +79,8 @@ type listStep struct {
 	stmts   []string // statements to execute
 	result  string   // expected R payload ("" none)
 	result2 string   // a second R line
+	altList []HV     // the operation's own array may also end like this (see pop-push-self)
+	hasAlt  bool
 	keys    string   // a K line precedes R: the string forms the model assumed (run skipped when they differ)
 	alt     string   // twin runs: the statements of the second run's last operation
 	pattern bool     // the fatal operation sits in the pattern of a following rule
@@ -329,6 +331,35 @@ func (m *listModel) step(op *LOp) (listStep, error) {
 		}
 		pat := []string{"%s[%d] == 1", "[1].contains(%s[%d])", "%s[%d] is number", "!%s[%d]"}[op.Idx%4]
 		return listStep{stmts: []string{"print \"LAST\"\n}\n" + fmt.Sprintf(pat, H, -k) + " { print \"PAT\" }\n{ print \"AFTER\""}, fatal: true, pattern: true}, nil
+	case "elem-push":
+		// the receiver is an element of the array that the argument's own call grows:
+		// the method acts on the array it was invoked on
+		if n == 0 || (*l)[n-1].K != 'a' {
+			return listStep{}, errUnsupported{"needs an array as last element"}
+		}
+		v, ok := parseLit(op.Lit)
+		if !ok {
+			return listStep{}, errUnsupported{"literal"}
+		}
+		inner := (*l)[n-1].Arr
+		*l = append(*l, v)
+		inner.Items = append(inner.Items, &HCell{V: hNum(float64(n + 1))})
+		return listStep{stmts: []string{R(fmt.Sprintf("%s[-1].push(%s.push(%s).length()).length()", H, H, op.Lit))}, result: "[" + strconv.Itoa(len(inner.Items)) + "]"}, nil
+	case "pop-push-self":
+		// an index write whose right-hand side pops the addressed element and
+		// pushes it onto another array (closing operation: what the write does to
+		// its own array depends on whether the target is resolved before or after
+		// the right-hand side -- known finding K12 -- so both endings are accepted;
+		// the other array is not in doubt)
+		if op.Other == op.Arr || n < 2 || (*l)[n-1].isContainer() {
+			return listStep{}, errUnsupported{"needs two arrays and a scalar last element"}
+		}
+		g := &m.lists[op.Other]
+		last := (*l)[n-1]
+		*g = append(*g, last)
+		lost := append([]HV(nil), (*l)[:n-1]...)
+		*l = append(append([]HV(nil), (*l)[:n-2]...), hNum(float64(len(*g))))
+		return listStep{stmts: []string{fmt.Sprintf("%s[-1] = %s.push(%s.pop()).length()", H, listHolders[op.Other], H)}, altList: lost, hasAlt: true}, nil
 	case "self-rhs":
 		// a write at or past the end whose right-hand side looks at the same
 		// array: it sees the array as it is before the write (also before any padding)
@@ -536,6 +567,7 @@ func runListCase(c *ListCase, keep bool) Outcome {
 		q     bool
 		fatal bool
 		soft  bool
+		alt   []string
 	}
 	var want []exp
 	var sb strings.Builder
@@ -585,7 +617,12 @@ func runListCase(c *ListCase, keep bool) Outcome {
 			}
 		}
 		sb.WriteString(listDump + "\n")
-		want = append(want, exp{tag: "S", vals: m.dump(), op: i})
+		se := exp{tag: "S", vals: m.dump(), op: i}
+		if st.hasAlt {
+			se.alt = m.dump()
+			se.alt[c.Ops[i].Arr] = "[" + canonList(st.altList) + "]"
+		}
+		want = append(want, se)
 	}
 	sb.WriteString("print \"DONE\"\n}\n")
 	prog := sb.String()
@@ -686,6 +723,10 @@ func runListCase(c *ListCase, keep bool) Outcome {
 		}
 		for k := range vals {
 			if vals[k] != w.vals[k] {
+				if w.alt != nil && vals[k] == w.alt[k] {
+					o.Probes["write_lost_to_a_popped_element_K12"]++
+					continue
+				}
 				if w.soft {
 					o.Skipped = "the string forms (\"\" + element) of the elements of a mixed array are not the ones the model assumed"
 					return finish()
@@ -835,7 +876,9 @@ func genListCase(t *Tape, maxOps int, bulk bool) *ListCase {
 		if bulk {
 			bw = 6
 		}
-		switch t.Weighted(8, 5, 5, 3, 4, 4, 4, 3, 8, 1, 2, bw, bw, bw, 2, 2, 2) {
+		switch t.Weighted(8, 5, 5, 3, 4, 4, 4, 3, 8, 1, 2, bw, bw, bw, 2, 2, 2, 2) {
+		case 17:
+			op.Kind, op.Lit = "elem-push", genListLit(t, profile)
 		case 15:
 			op.Kind, op.Nested, op.Idx = "self-rhs", []string{"len", "last", "lastplus"}[t.Draw(3)], t.Draw(3)
 		case 16:
@@ -919,6 +962,19 @@ func genListCase(t *Tape, maxOps int, bulk bool) *ListCase {
 	}
 	if t.Chance(1, 4) {
 		c.Passes = 2 + t.Draw(2)
+	}
+	if t.Chance(1, 10) {
+		// closing operation (single pass: the model does not follow the two endings further)
+		op := LOp{Arr: t.Draw(3), Other: t.Draw(3), Kind: "pop-push-self"}
+		cp := *m
+		for i := range cp.lists {
+			cp.lists[i] = append([]HV(nil), m.lists[i]...)
+		}
+		if _, err := cp.step(&op); err == nil {
+			c.Ops = append(c.Ops, op)
+			c.Passes = 0
+			return c
+		}
 	}
 	switch t.Weighted(8, 2, 3) {
 	case 1:
